@@ -30,6 +30,139 @@ def run(ctx):
     r1_targets_follow(ctx, writers)
     r2_action_follows(ctx, writers)
     r4_finalize(ctx)
+    r5_stateful_not_shared(ctx)
+    r6_rechunk_by_current_row(ctx)
+    r7_row_memo(ctx)
+
+
+CORE = "coba/environments/core.py"
+_CONTAINERS = ("defaultdict", "dict", "list", "set", "deque", "collections.defaultdict", "OrderedDict")
+_MUT = {"append", "extend", "pop", "update", "setdefault", "clear", "insert", "remove", "add", "popitem", "discard"}
+
+
+def stateful_filters(ctx):
+    """{class name: [attrs]} EnvironmentFilters that own a container created in __init__, grown while reading, and *read back into the output*
+    (a pure accumulator that is only ever `+=`-ed, like timing counters, is not state the output depends on)."""
+    base = ctx.model.cls(PRIM, "EnvironmentFilter")
+    out = {}
+    for c in ctx.model.subclasses(base):
+        init = c.methods.get("__init__")
+        if init is None:
+            continue
+        cont = {}
+        for x in walk_shallow(init):
+            if isinstance(x, ast.Assign):
+                for t in x.targets:
+                    if is_self_attr(t):
+                        v = x.value
+                        if isinstance(v, (ast.Dict, ast.List, ast.Set)) or (isinstance(v, ast.Call) and call_name(v) in _CONTAINERS):
+                            cont[t.attr] = call_name(v) if isinstance(v, ast.Call) else type(v).__name__
+        for name, fn in c.methods.items():
+            if name == "__init__":
+                continue
+            for x in ast.walk(fn):
+                if isinstance(x, ast.Subscript) and is_self_attr(x.value) and x.value.attr in cont:
+                    grows = isinstance(x.ctx, (ast.Store, ast.Del)) or "defaultdict" in cont[x.value.attr]
+                    read_back = isinstance(x.ctx, ast.Load) and not (isinstance(parent(x), ast.AugAssign) and parent(x).target is x)
+                    if grows and (read_back or any(isinstance(y, ast.Subscript) and is_self_attr(y.value) and y.value.attr == x.value.attr and isinstance(y.ctx, ast.Load)
+                                                   and not isinstance(parent(y), ast.AugAssign) for f2 in c.methods.values() for y in ast.walk(f2))):
+                        out.setdefault(c.name, set()).add(x.value.attr)
+                if isinstance(x, ast.Call) and isinstance(x.func, ast.Attribute) and x.func.attr in _MUT and is_self_attr(x.func.value) and x.func.value.attr in cont:
+                    out.setdefault(c.name, set()).add(x.func.value.attr)
+    return {k: sorted(v) for k, v in out.items()}
+
+
+def r5_stateful_not_shared(ctx):
+    ctx.rule("C10.R5", "a representation filter that owns a table grown while reading (Densify's feature->column look-up) is instantiated once per "
+                       "environment by the Environments shortcuts, never one instance shared through Environments.filter")
+    st = stateful_filters(ctx)
+    ctx.floor("C10.R5", "stateful representation filters (computed)", len(st), 1)
+    ctx.note("C10.R5 stateful filters: " + ", ".join(f"{k}.{'/'.join(v)}" for k, v in sorted(st.items())))
+    envs = ctx.model.cls(CORE, "Environments")
+    n = 0
+    for name, fn in sorted(envs.methods.items()):
+        for c in walk_shallow(fn):
+            if not (isinstance(c, ast.Call) and call_name(c) is not None and call_name(c).split(".")[-1] in st):
+                continue
+            n += 1
+            ctx.touch(CORE, f"Environments.{name}")
+            anc = list(ancestors(c))
+            per_env = any(isinstance(a, (ast.ListComp, ast.GeneratorExp)) for a in anc)
+            lam = next((a for a in anc if isinstance(a, ast.Lambda) or (isinstance(a, ast.FunctionDef) and a is not fn)), None)
+            if lam is not None:
+                # the factory must be *called* inside a per-environment comprehension, and never elsewhere
+                holder = parent(lam)
+                fname = holder.targets[0].id if isinstance(holder, ast.Assign) and isinstance(holder.targets[0], ast.Name) else getattr(lam, "name", None)
+                calls = [k for k in walk_shallow(fn) if isinstance(k, ast.Call) and isinstance(k.func, ast.Name) and k.func.id == fname]
+                per_env = bool(calls) and all(any(isinstance(a, (ast.ListComp, ast.GeneratorExp)) for a in ancestors(k)) for k in calls)
+            ctx.ob("C10.R5", CORE, f"Environments.{name}", c, f"{call_name(c)}(...) is constructed once per environment (inside the per-environment comprehension)", per_env,
+                   detail={"state": st[call_name(c).split(".")[-1]]})
+    ctx.floor("C10.R5", "construction sites of stateful filters in Environments", n, 1)
+
+
+def r6_rechunk_by_current_row(ctx):
+    ctx.rule("C10.R6", "a filter that encodes all actions as one flat stream cuts the stream back into action sets by the length of the *current* "
+                       "interaction's action list (len of the loop variable / its ['actions']), never by a length taken from another interaction")
+    n = 0
+    for (rel, qual), fn in sorted(ctx.model.functions.items()):
+        if rel != EF:
+            continue
+        flat = set()
+        for x in walk_shallow(fn):
+            if isinstance(x, ast.Assign) and len(x.targets) == 1 and isinstance(x.targets[0], ast.Name):
+                for g in ast.walk(x.value):
+                    if isinstance(g, ast.GeneratorExp) and len(g.generators) == 2 and const_str(getattr(g.generators[1].iter, "slice", None)) == "actions":
+                        flat.add(x.targets[0].id)
+                    if isinstance(g, ast.Call) and call_name(g) in ("chain.from_iterable", "from_iterable"):
+                        flat.add(x.targets[0].id)
+        if not flat:
+            continue
+        for c in walk_shallow(fn):
+            if isinstance(c, ast.Call) and call_name(c) == "islice" and c.args and isinstance(c.args[0], ast.Name) and c.args[0].id in flat:
+                n += 1
+                ctx.touch(rel, qual)
+                loopvars = set()
+                for a in ancestors(c):
+                    if isinstance(a, ast.For):
+                        loopvars |= {t.id for t in ast.walk(a.target) if isinstance(t, ast.Name)}
+                cnt = c.args[1] if len(c.args) == 2 else None
+                ok = isinstance(cnt, ast.Call) and call_name(cnt) == "len" and len(cnt.args) == 1 and (
+                    (isinstance(cnt.args[0], ast.Name) and cnt.args[0].id in loopvars) or
+                    (isinstance(cnt.args[0], ast.Subscript) and isinstance(cnt.args[0].value, ast.Name) and cnt.args[0].value.id in loopvars and const_str(cnt.args[0].slice) == "actions"))
+                ctx.ob("C10.R6", rel, qual, c, "the flat action stream is cut by len(<current row>)", ok, detail={"count": unparse(cnt) if cnt is not None else None, "loop_vars": sorted(loopvars)})
+    ctx.floor("C10.R6", "islice cuts of flattened action streams", n, 2)
+
+
+def r7_row_memo(ctx, rule="C10.R7"):
+    ctx.rule(rule, "a one-entry memo of encoded actions (re-use the previous encoding when the action set repeats) is keyed by equality of the whole "
+                   "row: the miss test is `row != previous row`, and key and value are refreshed together")
+    n = 0
+    for (rel, qual), fn in sorted(ctx.model.functions.items()):
+        if rel != EF:
+            continue
+        for loop in [x for x in ast.walk(fn) if isinstance(x, ast.For) and isinstance(x.target, ast.Name)]:
+            r = loop.target.id
+            for iff in [x for x in loop.body if isinstance(x, ast.If)]:
+                keys = [st for st in iff.body if isinstance(st, ast.Assign) and isinstance(st.value, ast.Name) and st.value.id == r and isinstance(st.targets[0], ast.Name)]
+                if not keys:
+                    continue
+                K = keys[0].targets[0].id
+                vals = [st for st in iff.body if isinstance(st, ast.Assign) and st is not keys[0] and r in {x.id for x in ast.walk(st.value) if isinstance(x, ast.Name)}]
+                yielded = [y for y in ast.walk(loop) if isinstance(y, ast.Yield) and isinstance(y.value, ast.Name) and any(y.value.id == v.targets[0].id for v in vals if isinstance(v.targets[0], ast.Name))]
+                if not yielded:
+                    continue
+                n += 1
+                ctx.touch(rel, qual)
+                t = iff.test
+                ds = t.values if isinstance(t, ast.BoolOp) and isinstance(t.op, ast.Or) else [t]
+                def full_ne(d):
+                    return isinstance(d, ast.Compare) and len(d.ops) == 1 and isinstance(d.ops[0], ast.NotEq) and {unparse(d.left), unparse(d.comparators[0])} == {r, K}
+                def is_none(d):
+                    return isinstance(d, ast.Compare) and len(d.ops) == 1 and isinstance(d.ops[0], ast.Is) and unparse(d.left) == K and unparse(d.comparators[0]) == "None"
+                ok = any(full_ne(d) for d in ds) and all(full_ne(d) or is_none(d) for d in ds)
+                ctx.ob(rule, rel, qual, iff.test, f"the memo is missed exactly when `{r} != {K}` (whole-row equality)", ok, detail={"test": unparse(t)})
+                ctx.ob(rule, rel, qual, iff, "key and value of the memo are refreshed in the same branch", bool(vals), stmt=f"memo refresh {K}")
+    ctx.floor(rule, "one-entry row memos in environment filters", n, 1)
 
 
 def find_writers(ctx):
@@ -270,6 +403,9 @@ def r4_finalize(ctx):
 
 
 CONTROLS = [
+    ("Environments.dense shares one Densify", CORE, M.replace_expr("Environments.dense", "Environments([Pipes.join(env, make_dense()) for env in self._envs])", "self.filter(make_dense())"), "C10.R5"),
+    ("Repr cuts by the first row's length", EF, M.replace_expr("Repr.filter", "islice(actionitr, len(row))", "islice(actionitr, len(first['actions']))"), "C10.R6"),
+    ("Repr memo keyed by the first action only", EF, M.replace_expr("Repr.filter", "row != prev_row", "prev_row is None or row[0] != prev_row[0]"), "C10.R7"),
     ("Flatten drops reward rebuild", EF, M.replace_stmt("Flatten.filter", M.text_has("for target in targets"), "pass"), "C10.R1"),
     ("Densify drops action", EF, M.replace_stmt("Densify.filter", M.text_has("if self._action and 'action' in new"), "pass"), "C10.R2"),
     ("Repr rebinds to old actions", EF, M.replace_expr("Repr.filter", "DiscreteReward(new['actions'], old[target].rewards)", "DiscreteReward(old['actions'], old[target].rewards)"), "C10.R1"),
